@@ -26,6 +26,8 @@ def run(ctx):
     ctx.guard(entry, ctx)
     from . import c01 as _c01
     ctx.shared(_c01.order, ctx)                # instances come into being through MetaClass.new only (where the defaults are computed)
+    from . import c18 as _c18
+    ctx.shared(_c18.escape, ctx)               # a class owns its attribute list (defaults and positional order are computed from it)
     ctx.assume('a random 128-bit uuid4 is never 0 and never repeats (probabilistic; not decided)')
     ctx.assume('user supplied generators honour the IdGenerator contract')
     return ('Abstract execution of MetaClass.default_value for every type name (in declared and in other letter '
